@@ -108,7 +108,7 @@ Record contobs := mkcont {
   c_ops : list op; c_oks_live : list bool; c_oks_re : list bool;
   c_live : jval; c_arts_live : jval; c_file_live : jval;
   c_re : option jval; c_arts_re : option jval; c_file_re : option jval;
-  c_dig_live : N; c_dig_re : N }.
+  c_digs : list N   (* every save after the continuation: live application x4 + graph level, reloaded likewise *) }.
 
 Inductive case :=
 (* the factory as the harness observes it *)
@@ -118,7 +118,8 @@ Inductive case :=
 | CHist (modulo : bool) (ops : list op) (oks : list bool)
         (before arts_before file1 : jval) (save_digests : list N) (reload_ok : bool)
         (after arts_after file2 : option jval)      (* None: rendered identically to before / arts_before / file1 *)
-        (digest2 digest_app : N)
+        (digests2 : list N)        (* the reloaded application saved repeatedly (App.Schema() x4, graph level) *)
+        (digest_plain : N)         (* the file loaded into a bare graph.Instance, saved at graph level *)
         (cont : option contobs)
 (* a shipped graph file: load -> save S1 -> load -> save S2 *)
 | CFile (file1 : jval) (file2 : option jval) (arts1 : jval) (arts2 : option jval) (digest1 digest2 : N).
@@ -174,13 +175,13 @@ Definition prop_ok (c : case) : bool :=
           && jval_eqb (c_live k) (orelse (c_re k) (c_live k))
           && jval_eqb (c_arts_live k) (orelse (c_arts_re k) (c_arts_live k))
           && jval_eqb (c_file_live k) (orelse (c_file_re k) (c_file_live k))
-          && N.eqb (c_dig_live k) (c_dig_re k)
+          && all_eqN (c_digs k)
       end &&
       reload_ok
       && jval_eqb before (orelse after before)                  (* same nodes, wiring incl. array order, parameter records, producers, metadata *)
       && jval_eqb arts_before (orelse arts_after arts_before)   (* same artifact content *)
       && jval_eqb file1 (orelse file2 file1)                    (* same saved structure *)
-      && all_eqN (digs ++ [dig2; dig_app])     (* the same instance saved repeatedly, the reloaded instance and the reloaded App: same bytes *)
+      && all_eqN (digs ++ dig2 ++ [dig_app])   (* the live application saved repeatedly, the reloaded one saved repeatedly, the bare reloaded instance: same bytes *)
   | CFile f1 f2 a1 a2 d1 d2 =>
       jval_eqb f1 (orelse f2 f1) && jval_eqb a1 (orelse a2 a1) && N.eqb d1 d2
   end.
